@@ -2100,7 +2100,6 @@ pub fn generate(data: &[u8], cfg: &GenCfg) -> Generated {
             let s = env.sig(*f);
             s.params.is_empty() && s.results.is_empty()
         })
-        .filter(|f| !cfg.exec || *f as usize >= env.n_imp_funcs)
         .collect();
     let start = if !start_cands.is_empty() && ch.chance(1, 4) {
         Some(*ch.pick(&start_cands))
